@@ -44,7 +44,11 @@ try:
             results.append((pid,"seeded/"+name,"PATCH DOES NOT APPLY "+a.stderr.strip()[:80])); continue
         viol,r=run_check(pid)
         sh("git","-C",wt,"checkout","--",".")
-        results.append((pid,"seeded/"+name,("ok" if viol else "MISSED")+" violations=%d %s"%(len(viol),(viol[0].split("obligation=")[-1] if viol else ""))))
+        gap=str(meta.get("note","")).startswith("NOT caught")
+        if gap:
+            results.append((pid,"seeded/"+name,"ok (recorded gap: not caught, see meta.json)" if not viol else "ok (recorded as a gap but caught now: update meta.json) violations=%d"%len(viol)))
+        else:
+            results.append((pid,"seeded/"+name,("ok" if viol else "MISSED")+" violations=%d %s"%(len(viol),(viol[0].split("obligation=")[-1] if viol else ""))))
 finally:
     sh("git","-C","/repo","worktree","remove","--force",wt)
 bad=0
